@@ -184,12 +184,13 @@ def unionBody : List Char → Nat → List Char → Nat → Option (List Char ×
 
 def directiveUnionState (st : St) : Res :=
   let st1 := st.skipWhile isBlank3
-  match acceptWord "{" st1 with
-  | none => stop [errTok] st1
-  | some st2 =>
+  match st1.rest with
+  | '{' :: _ =>
+    let st2 := st1.adv 1
     match unionBody st2.rest 1 [] 0 with
     | some (v, n) => cont [(st2.adv n).tokV .unionDir (String.ofList v)] (st2.adv n).ignore
     | none => stop [errTok] (st2.adv st2.rest.length)
+  | _ => stop [errTok] st1
 
 /-- the chain of `if l.acceptOnlyAlphaWord(w) { l.emit(k) }` statements -/
 def directiveWords : List (String × Kind) :=
